@@ -47,6 +47,7 @@ class ExecutionContext:
     on_metric: MetricHook | None
     on_log: LogHook | None
     operation: str | None
+    settled: bool = False
 
     @classmethod
     def create(
@@ -113,6 +114,7 @@ def record_success(ctx: ExecutionContext) -> None:
     if ctx.breaker is None:
         return
 
+    ctx.settled = True
     event = ctx.breaker.record_success()
     ctx.emit_breaker_event(event, ctx.breaker.state)
 
@@ -120,7 +122,20 @@ def record_success(ctx: ExecutionContext) -> None:
 def record_cancel(ctx: ExecutionContext) -> None:
     """Record cancellation with circuit breaker (no event emitted)."""
     if ctx.breaker is not None:
+        ctx.settled = True
         ctx.breaker.record_cancel()
+
+
+def ensure_settled(ctx: ExecutionContext) -> None:
+    """
+    Tell the breaker that an admitted call is over if nothing has done so yet.
+
+    Safety net for exits that bypass the normal recording paths (cancellation,
+    GeneratorExit, nested CircuitOpenError, errors raised by user callbacks), so a
+    half-open probe slot is never leaked.
+    """
+    if ctx.breaker is not None and not ctx.settled:
+        record_cancel(ctx)
 
 
 def record_failure(ctx: ExecutionContext, klass: ErrorClass) -> None:
@@ -128,6 +143,7 @@ def record_failure(ctx: ExecutionContext, klass: ErrorClass) -> None:
     if ctx.breaker is None:
         return
 
+    ctx.settled = True
     event = ctx.breaker.record_failure(klass)
     ctx.emit_breaker_event(event, ctx.breaker.state, klass)
 
